@@ -1,57 +1,137 @@
-(* C29 — the info tuple of every live callback stays alive: a reference-count layer on top of the
-   allocator model.  The tuple built by b_callback is owned by closure->user_data alone (count 1); every
-   invocation of the closure runs general_invoke_callback, whose effect on that count is read from the
-   regenerated C29/GenInvoke.v (path 0: normal; path k: the k-th `goto error` taken — e.g. an argument
-   coming from C that convert_to_object rejects); cdataowninggc_dealloc drops the owning reference.
-   If the count reaches 0 the tuple is freed although the closure is still live: the next callback's
-   tuple may occupy its memory and the old closure then runs the new callback's function. *)
+(* C29 — the info tuple of a callback stays alive while it is needed: a reference-count layer on top of the
+   allocator model, with invocations that are IN FLIGHT while other operations happen.
+
+   The tuple built by b_callback is owned by closure->user_data alone (count 1).  An invocation of the closure
+   runs general_invoke_callback on that tuple; its events (INCREF / DECREF of the tuple, reads of the tuple or
+   through pointers borrowed from it, call-outs during which arbitrary Python code runs) come from the
+   regenerated C29/GenInvoke.v.  An invocation is suspended at every call-out ([RInvokeEnter] runs it up to its
+   first call-out, [RInvokeExit] resumes the innermost one up to its next call-out or its return); while it is
+   suspended ANY operation may happen — in particular [Drop h] of the very callback that is running
+   (cdataowninggc_dealloc: Py_XDECREF(closure->user_data); cffi_closure_free), creations that take over the
+   freed closure address, and nested invocations (also of the same callback).
+   Tuples therefore have their own identity (a closure address can be given to a new callback while an
+   invocation of its previous owner is still in flight).  Reading a tuple whose count has reached 0 sets
+   [uaf]: the next 4-tuple (e.g. the next callback's info tuple) may occupy its memory and the running
+   invocation would then use that callback's function, error value and onerror handler. *)
 From Coq Require Import ZArith NArith List Bool Lia.
 Import ListNotations.
 From Cffi Require Import C29.Model C29.Proofs C29.Invoke C29.GenInvoke.
 Open Scope Z_scope.
 
-Record rstate := { base : state; trefs : list (addr * Z) }.   (* closure address -> count of its tuple *)
-Definition rinit : rstate := {| base := init; trefs := [] |}.
+Record frame := { f_tup : N;               (* the tuple (cb_args) this invocation works on *)
+                  f_own : Z;               (* ghost: references it holds itself (INCREFs - DECREFs so far) *)
+                  f_rest : list gev }.     (* the events still to come on its path *)
 
-Fixpoint tremove (a : addr) (l : list (addr * Z)) : list (addr * Z) :=
+Record rstate := {
+  base : state;
+  tupof : list (addr * N);       (* closure->user_data: closure address -> tuple *)
+  trefs : list (N * Z);          (* allocated tuples and their reference counts (absent = freed) *)
+  ntup : N;                      (* next tuple identity *)
+  frames : list frame;           (* invocations in flight, innermost first *)
+  uaf : bool }.                  (* some invocation touched a freed tuple *)
+Definition rinit : rstate :=
+  {| base := init; tupof := []; trefs := []; ntup := 0; frames := []; uaf := false |}.
+
+Fixpoint tremove (t : N) (l : list (N * Z)) : list (N * Z) :=
   match l with
   | [] => []
-  | (a', r) :: t => if addr_eqb a a' then tremove a t else (a', r) :: tremove a t
+  | (t', r) :: l' => if N.eqb t t' then tremove t l' else (t', r) :: tremove t l'
+  end.
+Definition tset (t : N) (r : Z) (l : list (N * Z)) : list (N * Z) :=
+  if r <=? 0 then tremove t l else (t, r) :: tremove t l.            (* count 0: tuple_dealloc *)
+Definition tdec (t : N) (l : list (N * Z)) : list (N * Z) :=
+  match lookup N.eqb t l with Some r => tset t (r - 1) l | None => l end.
+Fixpoint aremove (a : addr) (l : list (addr * N)) : list (addr * N) :=
+  match l with
+  | [] => []
+  | (a', t) :: l' => if addr_eqb a a' then aremove a l' else (a', t) :: aremove a l'
+  end.
+
+(* run the events of one invocation on tuple t up to (and including) the next call-out, or to the end.
+   Result: the counts, the invocation's own references, Some rest (suspended) / None (returned), and
+   whether every touch of the tuple found it allocated *)
+Fixpoint advance (t : N) (p : list gev) (tr : list (N * Z)) (own : Z)
+  : list (N * Z) * Z * option (list gev) * bool :=
+  match p with
+  | [] => (tr, own, None, true)
+  | e :: p' =>
+      match e with
+      | GInc => match lookup N.eqb t tr with
+                | Some r => advance t p' (tset t (r + 1) tr) (own + 1)
+                | None => (tr, own, None, false) end
+      | GDec => match lookup N.eqb t tr with
+                | Some r => advance t p' (tset t (r - 1) tr) (own - 1)
+                | None => (tr, own, None, false) end
+      | GUse => match lookup N.eqb t tr with
+                | Some _ => advance t p' tr own
+                | None => (tr, own, None, false) end
+      | GCall => match lookup N.eqb t tr with
+                 | Some _ => (tr, own, Some p', true)
+                 | None => (tr, own, None, false) end
+      | _ => advance t p' tr own
+      end
   end.
 
 Inductive rop :=
-| RBase (o : op)                (* Create / CreateFail / Drop; Call h = RInvoke h 0 *)
-| RInvoke (h : N) (k : nat).    (* the closure of h is invoked and general_invoke_callback takes path k *)
+| RBase (o : op)                  (* Create / CreateFail / Drop / Call (Call: which function is bound, no counts) *)
+| RInvokeEnter (h : N) (k : nat)  (* the closure of h is entered; general_invoke_callback takes path k and runs
+                                     up to its first call-out *)
+| RInvokeExit.                    (* the Python code run by the innermost invocation in flight returns: that
+                                     invocation continues to its next call-out, or returns to its C caller *)
 
-Definition invoke (c : config) (rs : rstate) (h : N) (k : nat) : rstate * out :=
+Definition finish (rs : rstate) (t : N) (fs : list frame)
+                  (res : list (N * Z) * Z * option (list gev) * bool) : rstate :=
+  let '(tr, own, rest, ok) := res in
+  {| base := base rs; tupof := tupof rs; trefs := tr; ntup := ntup rs;
+     frames := match rest with
+               | Some q => {| f_tup := t; f_own := own; f_rest := q |} :: fs
+               | None => fs end;
+     uaf := uaf rs || negb ok |}.
+
+Section Layer.
+Variable ev : list gev.           (* the events of general_invoke_callback (instantiated with GenInvoke.invoke_events) *)
+
+Definition enter (rs : rstate) (h : N) (k : nat) : rstate * out :=
   match lookup N.eqb h (live (base rs)) with
   | None => (rs, OBad)
   | Some a =>
-      match lookup addr_eqb a (trefs rs), lookup addr_eqb a (udata (base rs)) with
-      | Some r, Some f =>
-          let r' := r + delta (path invoke_events (Nat.min k (nfails invoke_events))) in
+      match lookup addr_eqb a (tupof rs), lookup addr_eqb a (udata (base rs)) with
+      | Some t, Some f =>
           (* (there are nfails `goto error` exits; larger k mean the last one) *)
-          ({| base := base rs;
-              trefs := if r' <=? 0 then tremove a (trefs rs) else (a, r') :: tremove a (trefs rs) |}, OFn f)
-      | _, _ => (rs, OBad)        (* the tuple is gone: use after free *)
+          (finish rs t (frames rs) (advance t (path ev (Nat.min k (nfails ev))) (trefs rs) 0), OFn f)
+      | _, _ => (rs, OBad)
       end
+  end.
+
+Definition resume (rs : rstate) : rstate * out :=
+  match frames rs with
+  | [] => (rs, OBad)
+  | fr :: fs => (finish rs (f_tup fr) fs (advance (f_tup fr) (f_rest fr) (trefs rs) (f_own fr)), ONone)
   end.
 
 Definition rstep (c : config) (rs : rstate) (o : rop) : rstate * out :=
   match o with
-  | RInvoke h k => invoke c rs h k
-  | RBase (Call h) => invoke c rs h 0
+  | RInvokeEnter h k => enter rs h k
+  | RInvokeExit => resume rs
   | RBase (Drop h) =>
       match lookup N.eqb h (live (base rs)) with
-      | Some a => let '(s', r) := step c (base rs) (Drop h) in
-                  ({| base := s'; trefs := tremove a (trefs rs) |}, r)     (* Py_XDECREF(closure->user_data) *)
+      | Some a =>
+          let '(s', r) := step c (base rs) (Drop h) in
+          ({| base := s'; tupof := aremove a (tupof rs);                  (* closure->user_data = NULL *)
+              trefs := match lookup addr_eqb a (tupof rs) with            (* Py_XDECREF(closure->user_data) *)
+                       | Some t => tdec t (trefs rs) | None => trefs rs end;
+              ntup := ntup rs; frames := frames rs; uaf := uaf rs |}, r)
       | None => (rs, OBad)
       end
   | RBase o' =>
       let '(s', r) := step c (base rs) o' in
       match r with
-      | OAddr a => ({| base := s'; trefs := (a, 1) :: tremove a (trefs rs) |}, r)   (* new tuple, count 1 *)
-      | _ => ({| base := s'; trefs := trefs rs |}, r)
+      | OAddr a =>                                                        (* new tuple, count 1 *)
+          ({| base := s'; tupof := (a, ntup rs) :: aremove a (tupof rs);
+              trefs := (ntup rs, 1) :: trefs rs; ntup := N.succ (ntup rs);
+              frames := frames rs; uaf := uaf rs |}, r)
+      | _ => ({| base := s'; tupof := tupof rs; trefs := trefs rs; ntup := ntup rs;
+                 frames := frames rs; uaf := uaf rs |}, r)
       end
   end.
 
@@ -59,29 +139,206 @@ Fixpoint rrun (c : config) (rs : rstate) (h : list rop) : rstate :=
   match h with [] => rs | o :: h' => rrun c (fst (rstep c rs o)) h' end.
 
 Definition rreachable (c : config) (rs : rstate) : Prop := exists h, rs = rrun c rinit h.
+End Layer.
 
-(* ---------- the regenerated general_invoke_callback leaves the count unchanged on every path *)
-Lemma paths_balanced : all_paths_balanced invoke_events = true.
-Proof. reflexivity. Qed.
+(* ---------- bookkeeping: who holds references to tuple t *)
+Fixpoint osum (t : N) (l : list (addr * N)) : Z :=            (* closures whose user_data is t *)
+  match l with [] => 0 | (_, t') :: l' => (if N.eqb t' t then 1 else 0) + osum t l' end.
+Fixpoint fsum (t : N) (fs : list frame) : Z :=                (* references held by invocations in flight *)
+  match fs with [] => 0 | fr :: fs' => (if N.eqb (f_tup fr) t then f_own fr else 0) + fsum t fs' end.
 
-Lemma delta_zero k : delta (path invoke_events (Nat.min k (nfails invoke_events))) = 0.
+Lemma osum_nonneg t l : 0 <= osum t l.
+Proof. induction l as [|[a t'] l IH]; cbn; [lia|]. destruct (N.eqb t' t); lia. Qed.
+
+Lemma osum_lookup a t l : lookup addr_eqb a l = Some t -> 1 <= osum t l.
 Proof.
-  pose proof paths_balanced as H. unfold all_paths_balanced in H. rewrite forallb_forall in H.
-  assert (Hin : In (Nat.min k (nfails invoke_events)) (seq 0 (S (nfails invoke_events)))) by (apply in_seq; lia).
-  specialize (H _ Hin). unfold balanced in H. apply andb_true_iff in H as [H _]. apply Z.eqb_eq in H. exact H.
+  induction l as [|[a' t'] l IH]; cbn; [discriminate|].
+  destruct (addr_eqb a a').
+  - intros H; inversion H; subst. rewrite N.eqb_refl. pose proof (osum_nonneg t l). lia.
+  - intros H. specialize (IH H). destruct (N.eqb t' t); lia.
 Qed.
 
-(* ---------- invariant of the layer *)
-Definition RInv (rs : rstate) : Prop :=
-  Inv (base rs) /\
-  forall h a, In (h, a) (live (base rs)) -> exists r, lookup addr_eqb a (trefs rs) = Some r /\ 1 <= r.
-
-Lemma tlookup_remove_other a b l : a <> b -> lookup addr_eqb b (tremove a l) = lookup addr_eqb b l.
+Lemma osum_aremove_le a t l : osum t (aremove a l) <= osum t l.
 Proof.
-  intros Hne. induction l as [|[a' r] l IH]; cbn; auto.
+  induction l as [|[a' t'] l IH]; cbn; [lia|].
+  destruct (addr_eqb a a'); cbn; destruct (N.eqb t' t); lia.
+Qed.
+
+Lemma osum_aremove_lt a t l : lookup addr_eqb a l = Some t -> osum t (aremove a l) <= osum t l - 1.
+Proof.
+  induction l as [|[a' t'] l IH]; cbn; [discriminate|].
+  destruct (addr_eqb a a').
+  - intros H; inversion H; subst. rewrite N.eqb_refl. pose proof (osum_aremove_le a t l). lia.
+  - intros H. specialize (IH H). cbn. destruct (N.eqb t' t); lia.
+Qed.
+
+Lemma osum_fresh n l : (forall a t, In (a, t) l -> (t < n)%N) -> osum n l = 0.
+Proof.
+  induction l as [|[a t'] l IH]; cbn; auto. intros H.
+  destruct (N.eqb_spec t' n) as [->|_].
+  - specialize (H a n (or_introl eq_refl)). lia.
+  - rewrite IH; [reflexivity|]. intros a0 t0 Hin. apply (H a0 t0). right; auto.
+Qed.
+
+Lemma fsum_fresh n fs : (forall fr, In fr fs -> (f_tup fr < n)%N) -> fsum n fs = 0.
+Proof.
+  induction fs as [|fr fs IH]; cbn; auto. intros H.
+  destruct (N.eqb_spec (f_tup fr) n) as [E|_].
+  - specialize (H fr (or_introl eq_refl)). lia.
+  - rewrite IH; [reflexivity|]. intros fr0 Hin. apply H. right; auto.
+Qed.
+
+Lemma fsum_nonneg t fs : (forall fr, In fr fs -> 1 <= f_own fr) -> 0 <= fsum t fs.
+Proof.
+  induction fs as [|fr fs IH]; cbn; [lia|]. intros H.
+  pose proof (H fr (or_introl eq_refl)). assert (0 <= fsum t fs) by (apply IH; auto).
+  destruct (N.eqb (f_tup fr) t); lia.
+Qed.
+
+Lemma fsum_member fr fs : (forall fr, In fr fs -> 1 <= f_own fr) -> In fr fs -> f_own fr <= fsum (f_tup fr) fs.
+Proof.
+  induction fs as [|fr' fs IH]; cbn; [tauto|]. intros H [->|Hin].
+  - rewrite N.eqb_refl. assert (0 <= fsum (f_tup fr) fs) by (apply fsum_nonneg; auto). lia.
+  - assert (f_own fr <= fsum (f_tup fr) fs) by (apply IH; auto).
+    pose proof (H fr' (or_introl eq_refl)). destruct (N.eqb (f_tup fr') (f_tup fr)); lia.
+Qed.
+
+Lemma alookup_In a t (l : list (addr * N)) : lookup addr_eqb a l = Some t -> In (a, t) l.
+Proof.
+  induction l as [|[a' t'] l IH]; cbn; [discriminate|].
+  destruct (addr_eqb_spec a a'); intros H; [inversion H; subst; auto|auto].
+Qed.
+
+Lemma alookup_aremove_other a b (l : list (addr * N)) :
+  a <> b -> lookup addr_eqb b (aremove a l) = lookup addr_eqb b l.
+Proof.
+  intros Hne. induction l as [|[a' t] l IH]; cbn; auto.
   destruct (addr_eqb_spec a a').
   - subst. destruct (addr_eqb_spec b a'); [congruence|auto].
   - cbn. destruct (addr_eqb_spec b a'); auto.
+Qed.
+
+Lemma In_aremove a x (l : list (addr * N)) : In x (aremove a l) -> In x l.
+Proof.
+  induction l as [|[a' t] l IH]; cbn; auto.
+  destruct (addr_eqb a a'); cbn; intros H; [auto|]. destruct H; auto.
+Qed.
+
+Lemma tlookup_remove_same t l : lookup N.eqb t (tremove t l) = None.
+Proof.
+  induction l as [|[t' r] l IH]; cbn; auto.
+  destruct (N.eqb_spec t t'); auto. cbn. destruct (N.eqb_spec t t'); [congruence|auto].
+Qed.
+
+Lemma tlookup_remove_other t t' l : t' <> t -> lookup N.eqb t' (tremove t l) = lookup N.eqb t' l.
+Proof.
+  intros Hne. induction l as [|[t'' r] l IH]; cbn; auto.
+  destruct (N.eqb_spec t t'').
+  - subst. destruct (N.eqb_spec t' t''); [congruence|auto].
+  - cbn. destruct (N.eqb_spec t' t''); auto.
+Qed.
+
+Lemma tlookup_set_same t r l : 1 <= r -> lookup N.eqb t (tset t r l) = Some r.
+Proof. intros H. unfold tset. destruct (Z.leb_spec r 0); [lia|]. cbn. rewrite N.eqb_refl. reflexivity. Qed.
+
+Lemma tlookup_set_other t t' r l : t' <> t -> lookup N.eqb t' (tset t r l) = lookup N.eqb t' l.
+Proof.
+  intros Hne. unfold tset. destruct (r <=? 0); [apply tlookup_remove_other; auto|].
+  cbn. destruct (N.eqb_spec t' t); [congruence|apply tlookup_remove_other; auto].
+Qed.
+
+Lemma tlookup_dec_other t t' l : t' <> t -> lookup N.eqb t' (tdec t l) = lookup N.eqb t' l.
+Proof. intros Hne. unfold tdec. destruct (lookup N.eqb t l); auto. apply tlookup_set_other; auto. Qed.
+
+(* ---------- one stretch of an invocation, between two call-outs.
+   E = the references to t held by everybody else (closures owning it, other invocations in flight) *)
+Lemma advance_ok t : forall p tr own dropped E,
+  safe p own dropped = true -> 0 <= E -> (dropped = false -> 1 <= E) -> 0 <= own ->
+  (1 <= E + own -> exists r, lookup N.eqb t tr = Some r /\ E + own <= r) ->
+  exists tr' own' rest, advance t p tr own = (tr', own', rest, true) /\
+    (forall t', t' <> t -> lookup N.eqb t' tr' = lookup N.eqb t' tr) /\
+    (1 <= E + own' -> exists r, lookup N.eqb t tr' = Some r /\ E + own' <= r) /\
+    match rest with Some q => 1 <= own' /\ safe q own' true = true | None => own' = 0 end.
+Proof.
+  induction p as [|e p IH]; intros tr own dropped E Hs HE Hd Ho Hc.
+  - cbn in Hs. apply Z.eqb_eq in Hs. subst. exists tr, 0, None. cbn. repeat split; auto.
+  - assert (Hheld : negb dropped || (1 <=? own) = true -> 1 <= E + own).
+    { intros H. apply orb_true_iff in H as [H|H].
+      - apply negb_true_iff in H. specialize (Hd H). lia.
+      - apply Z.leb_le in H. lia. }
+    destruct e; cbn [safe advance] in *;
+      try (destruct (IH tr own dropped E Hs HE Hd Ho Hc) as (tr' & own' & rest & A1 & A2 & A3 & A4);
+           exists tr', own', rest; repeat split; auto; fail).
+    + (* GInc *)
+      apply andb_true_iff in Hs as [H1 H2]. destruct (Hc (Hheld H1)) as (r & Hr & Hge). rewrite Hr.
+      destruct (IH (tset t (r + 1) tr) (own + 1) dropped E H2 HE Hd ltac:(lia)) as (tr' & own' & rest & A1 & A2 & A3 & A4).
+      { intros _. exists (r + 1). split; [apply tlookup_set_same; lia|lia]. }
+      exists tr', own', rest. repeat split; auto.
+      intros t' Hne. rewrite A2 by auto. apply tlookup_set_other; auto.
+    + (* GDec *)
+      apply andb_true_iff in Hs as [H1 H2]. apply Z.leb_le in H1.
+      destruct (Hc ltac:(lia)) as (r & Hr & Hge). rewrite Hr.
+      destruct (IH (tset t (r - 1) tr) (own - 1) dropped E H2 HE Hd ltac:(lia)) as (tr' & own' & rest & A1 & A2 & A3 & A4).
+      { intros Hpos. exists (r - 1). split; [apply tlookup_set_same; lia|lia]. }
+      exists tr', own', rest. repeat split; auto.
+      intros t' Hne. rewrite A2 by auto. apply tlookup_set_other; auto.
+    + (* GCall *)
+      apply andb_true_iff in Hs as [H1 H2]. apply Z.leb_le in H1.
+      destruct (Hc ltac:(lia)) as (r & Hr & Hge). rewrite Hr.
+      exists tr, own, (Some p). repeat split; auto.
+    + (* GUse *)
+      apply andb_true_iff in Hs as [H1 H2]. destruct (Hc (Hheld H1)) as (r & Hr & Hge). rewrite Hr.
+      destruct (IH tr own dropped E H2 HE Hd Ho Hc) as (tr' & own' & rest & A1 & A2 & A3 & A4).
+      exists tr', own', rest. repeat split; auto.
+Qed.
+
+(* ---------- invariant of the layer *)
+Record RInv (rs : rstate) : Prop := {
+  R1 : Inv (base rs);
+  R2 : forall h a, In (h, a) (live (base rs)) -> exists t, lookup addr_eqb a (tupof rs) = Some t;
+  R3 : forall t, 1 <= osum t (tupof rs) + fsum t (frames rs) ->
+       exists r, lookup N.eqb t (trefs rs) = Some r /\ osum t (tupof rs) + fsum t (frames rs) <= r;
+  R4 : forall fr, In fr (frames rs) -> 1 <= f_own fr /\ safe (f_rest fr) (f_own fr) true = true;
+  R5 : forall a t, In (a, t) (tupof rs) -> (t < ntup rs)%N;
+  R6 : forall fr, In fr (frames rs) -> (f_tup fr < ntup rs)%N;
+  R7 : uaf rs = false }.
+
+Lemma finish_inv rs t fs p own dropped :
+  Inv (base rs) ->
+  (forall h a, In (h, a) (live (base rs)) -> exists t, lookup addr_eqb a (tupof rs) = Some t) ->
+  (forall a t, In (a, t) (tupof rs) -> (t < ntup rs)%N) ->
+  uaf rs = false ->
+  (forall fr, In fr fs -> 1 <= f_own fr /\ safe (f_rest fr) (f_own fr) true = true) ->
+  (forall fr, In fr fs -> (f_tup fr < ntup rs)%N) ->
+  (t < ntup rs)%N ->
+  (forall t', 1 <= osum t' (tupof rs) + ((if N.eqb t t' then own else 0) + fsum t' fs) ->
+     exists r, lookup N.eqb t' (trefs rs) = Some r /\
+               osum t' (tupof rs) + ((if N.eqb t t' then own else 0) + fsum t' fs) <= r) ->
+  safe p own dropped = true -> 0 <= own -> (dropped = false -> 1 <= osum t (tupof rs)) ->
+  RInv (finish rs t fs (advance t p (trefs rs) own)).
+Proof.
+  intros H1 H2 H5 H7 H4 H6 Ht H3 Hs Ho Hd.
+  assert (F0 : 0 <= fsum t fs) by (apply fsum_nonneg; intros fr Hin; apply H4; auto).
+  pose proof (osum_nonneg t (tupof rs)) as O0.
+  destruct (advance_ok t p (trefs rs) own dropped (osum t (tupof rs) + fsum t fs) Hs ltac:(lia)
+              ltac:(intros Hx; specialize (Hd Hx); lia) Ho)
+    as (tr' & own' & rest & A1 & A2 & A3 & A4).
+  { intros Hpos. specialize (H3 t). rewrite N.eqb_refl in H3.
+    destruct H3 as (r & Hr & Hge); [lia|]. exists r. split; [auto|lia]. }
+  rewrite A1. unfold finish. rewrite H7. cbn [negb orb].
+  constructor; cbn [base tupof trefs ntup frames uaf]; auto.
+  - (* R3 *)
+    intros t' Hpos. destruct (N.eqb_spec t t') as [E|Hne].
+    + subst t'. destruct rest as [q|].
+      * cbn [fsum f_tup f_own] in *. rewrite N.eqb_refl in *.
+        destruct A3 as (r & Hr & Hge); [lia|]. exists r. split; [auto|lia].
+      * subst own'. destruct A3 as (r & Hr & Hge); [lia|]. exists r. split; [auto|lia].
+    + rewrite A2 by congruence. specialize (H3 t'). apply N.eqb_neq in Hne.
+      destruct rest as [q|]; cbn [fsum f_tup f_own] in *; rewrite Hne in *; apply H3; lia.
+  - (* R4 *)
+    destruct rest as [q|]; [|auto]. intros fr [<-|Hin]; [cbn; tauto|auto].
+  - (* R6 *)
+    destruct rest as [q|]; [|auto]. intros fr [<-|Hin]; [cbn; auto|auto].
 Qed.
 
 Lemma step_create_live c s h f s' a :
@@ -94,94 +351,174 @@ Proof.
   cbn. rewrite A3. auto.
 Qed.
 
-Lemma step_other_live c s o s' r :
-  (forall h f, o <> Create h f) -> (forall h, o <> Drop h) -> step c s o = (s', r) ->
-  live s' = live s /\ (forall a, r <> OAddr a).
+Lemma step_nonaddr_live c s o s' r :
+  (forall h, o <> Drop h) -> (forall a, r <> OAddr a) -> step c s o = (s', r) -> live s' = live s.
 Proof.
-  intros Hc Hd H. destruct o as [h f| |h|h]; cbn [step] in H.
-  - exfalso; eapply Hc; eauto.
-  - destruct (closure_alloc c s) as [[a s1]|] eqn:Ha; inversion H; subst; cbn.
-    + split; [eapply alloc_live; eauto|discriminate].
-    + split; [auto|discriminate].
+  intros Hd Hr H. destruct o as [h f| |h|h]; cbn [step] in H.
+  - destruct (lookup N.eqb h (live s)); [inversion H; auto|].
+    destruct (closure_alloc c s) as [[a s1]|]; inversion H; subst; auto. exfalso; eapply Hr; eauto.
+  - destruct (closure_alloc c s) as [[a s1]|] eqn:Ha; inversion H; subst; cbn; auto.
+    eapply alloc_live; eauto.
   - exfalso; eapply Hd; eauto.
-  - destruct (lookup N.eqb h (live s)); [destruct (lookup addr_eqb a (udata s))|]; inversion H; subst;
-      split; auto; discriminate.
+  - destruct (lookup N.eqb h (live s)); [destruct (lookup addr_eqb a (udata s))|]; inversion H; subst; auto.
 Qed.
 
-Lemma rstep_inv c rs o : RInv rs -> RInv (fst (rstep c rs o)).
+Section LayerProofs.
+Variable ev : list gev.
+Hypothesis Hheld : held_at_uses ev = true.
+
+Lemma path_safe k : safe (path ev (Nat.min k (nfails ev))) 0 false = true.
 Proof.
-  intros [HI HT].
-  assert (INV : forall h k, RInv (fst (invoke c rs h k))).
-  { intros h k. unfold invoke. destruct (lookup N.eqb h (live (base rs))) as [a|] eqn:Hh; [|cbn [fst]; split; auto].
-    destruct (lookup addr_eqb a (trefs rs)) as [r|] eqn:Hr; [|cbn [fst]; split; auto].
-    destruct (lookup addr_eqb a (udata (base rs))) as [f|]; [|cbn [fst]; split; auto].
-    rewrite delta_zero, Z.add_0_r. apply lookup_In in Hh. destruct (HT _ _ Hh) as (r0 & Hr0 & Hge).
-    assert (r0 = r) by congruence. subst.
-    destruct (Z.leb_spec r 0); [lia|]. split; cbn [fst base trefs]; auto.
-    intros h' a' Hin. cbn. destruct (addr_eqb_spec a' a) as [->|Hne]; [eauto|].
-    rewrite tlookup_remove_other by congruence. eapply HT; eauto. }
-  destruct o as [o|h k]; [|apply INV]. destruct o as [h f| |h|h]; cbn [rstep].
-  - (* Create *)
-    destruct (step c (base rs) (Create h f)) as [s' r] eqn:Hs.
-    pose proof (step_inv c (base rs) (Create h f) HI) as HI'. rewrite Hs in HI'. cbn in HI'.
-    destruct r as [a| | | |]; split; cbn [fst base trefs]; auto.
-    + destruct (step_create_live _ _ _ _ _ _ HI Hs) as [Hl Hn]. rewrite Hl. intros h' a' [E|Hin].
-      * inversion E; subst. exists 1. cbn. destruct (addr_eqb_spec a' a'); [split; [auto|lia]|congruence].
-      * cbn. destruct (addr_eqb_spec a' a) as [->|Hne].
-        -- exfalso. apply Hn. apply (in_map snd) in Hin. exact Hin.
-        -- rewrite tlookup_remove_other by congruence. eapply HT; eauto.
-    + cbn [step] in Hs. destruct (lookup N.eqb h (live (base rs))); [inversion Hs|].
-      destruct (closure_alloc c (base rs)) as [[a s1]|]; inversion Hs.
-    + cbn [step] in Hs. destruct (lookup N.eqb h (live (base rs))); [inversion Hs|].
-      destruct (closure_alloc c (base rs)) as [[a s1]|]; inversion Hs.
-    + cbn [step] in Hs. destruct (lookup N.eqb h (live (base rs))); [inversion Hs|].
-      destruct (closure_alloc c (base rs)) as [[a s1]|] eqn:Ha; inversion Hs; subst. auto.
-    + cbn [step] in Hs. destruct (lookup N.eqb h (live (base rs))) eqn:Hh; [inversion Hs; subst; auto|].
-      destruct (closure_alloc c (base rs)) as [[a s1]|]; inversion Hs.
-  - (* CreateFail *)
-    destruct (step c (base rs) CreateFail) as [s' r] eqn:Hs.
-    pose proof (step_inv c (base rs) CreateFail HI) as HI'. rewrite Hs in HI'. cbn in HI'.
-    assert (Hl : live s' = live (base rs) /\ (forall a, r <> OAddr a)).
-    { eapply step_other_live; eauto; discriminate. }
-    destruct Hl as [Hl Hna]. destruct r as [a| | | |]; [exfalso; eapply Hna; eauto| | | |];
-      split; cbn [fst base trefs]; auto; rewrite Hl; auto.
-  - (* Drop *)
-    destruct (lookup N.eqb h (live (base rs))) as [a|] eqn:Hh; [|cbn [fst]; split; auto].
-    destruct (step c (base rs) (Drop h)) as [s' r] eqn:Hs.
-    pose proof (step_inv c (base rs) (Drop h) HI) as HI'. rewrite Hs in HI'. cbn in HI'.
-    split; cbn [fst base trefs]; auto.
-    cbn [step] in Hs. rewrite Hh in Hs. inversion Hs; subst; clear Hs. cbn [closure_free live].
-    intros h' a' Hin. apply In_remove_key in Hin as [Hin Hne].
-    assert (a' <> a).
-    { intros ->. apply Hne. destruct HI as [_ I2 _ _ _ _]. apply lookup_In in Hh.
-      eapply snd_inj_of_NoDup; eauto. }
-    rewrite tlookup_remove_other by congruence. eapply HT; eauto.
-  - apply INV.
+  unfold held_at_uses in Hheld. rewrite forallb_forall in Hheld. apply Hheld. apply in_seq. lia.
+Qed.
+
+Lemma rstep_inv c rs o : RInv rs -> RInv (fst (rstep ev c rs o)).
+Proof.
+  intros HR. pose proof HR as [H1 H2 H3 H4 H5 H6 H7].
+  destruct o as [o|h k|].
+  - destruct o as [h f| |h|h]; cbn [rstep].
+    + (* Create *)
+      destruct (step c (base rs) (Create h f)) as [s' r] eqn:Hs.
+      pose proof (step_inv c (base rs) (Create h f) H1) as HI'. rewrite Hs in HI'. cbn [fst] in HI'.
+      destruct r as [a| | | |].
+      * destruct (step_create_live _ _ _ _ _ _ H1 Hs) as [Hl Hn].
+        constructor; cbn [fst base tupof trefs ntup frames uaf]; auto.
+        -- rewrite Hl. intros h' a' [E|Hin].
+           ++ inversion E; subst. exists (ntup rs). cbn. destruct (addr_eqb_spec a' a'); [auto|congruence].
+           ++ cbn. destruct (addr_eqb_spec a' a) as [->|Hne]; [eauto|].
+              rewrite alookup_aremove_other by congruence. eauto.
+        -- intros t Hpos. cbn [osum lookup] in *.
+           pose proof (osum_aremove_le a t (tupof rs)) as Hle.
+           destruct (N.eqb_spec (ntup rs) t) as [<-|Hne].
+           ++ rewrite N.eqb_refl. exists 1. split; auto.
+              rewrite (osum_fresh (ntup rs) (tupof rs)) in Hle by auto.
+              rewrite (fsum_fresh (ntup rs) (frames rs)) by auto.
+              pose proof (osum_nonneg (ntup rs) (aremove a (tupof rs))). lia.
+           ++ destruct (N.eqb_spec t (ntup rs)); [congruence|].
+              destruct (H3 t) as (r & Hr & Hge); [lia|]. exists r. split; [auto|lia].
+        -- intros a' t [E|Hin]; [inversion E; lia|]. apply In_aremove in Hin. specialize (H5 _ _ Hin). lia.
+        -- intros fr Hin. specialize (H6 _ Hin). lia.
+      * assert (Hl : live s' = live (base rs)) by (eapply step_nonaddr_live; eauto; discriminate).
+        constructor; cbn [fst base tupof trefs ntup frames uaf]; auto. rewrite Hl; auto.
+      * assert (Hl : live s' = live (base rs)) by (eapply step_nonaddr_live; eauto; discriminate).
+        constructor; cbn [fst base tupof trefs ntup frames uaf]; auto. rewrite Hl; auto.
+      * assert (Hl : live s' = live (base rs)) by (eapply step_nonaddr_live; eauto; discriminate).
+        constructor; cbn [fst base tupof trefs ntup frames uaf]; auto. rewrite Hl; auto.
+      * assert (Hl : live s' = live (base rs)) by (eapply step_nonaddr_live; eauto; discriminate).
+        constructor; cbn [fst base tupof trefs ntup frames uaf]; auto. rewrite Hl; auto.
+    + (* CreateFail *)
+      destruct (step c (base rs) CreateFail) as [s' r] eqn:Hs.
+      pose proof (step_inv c (base rs) CreateFail H1) as HI'. rewrite Hs in HI'. cbn [fst] in HI'.
+      assert (Hna : forall a, r <> OAddr a).
+      { cbn [step] in Hs. destruct (closure_alloc c (base rs)) as [[a s1]|]; inversion Hs; discriminate. }
+      assert (Hl : live s' = live (base rs)) by (eapply step_nonaddr_live; eauto; discriminate).
+      destruct r as [a| | | |]; [exfalso; eapply Hna; eauto| | | |];
+        constructor; cbn [fst base tupof trefs ntup frames uaf]; auto; rewrite Hl; auto.
+    + (* Drop *)
+      destruct (lookup N.eqb h (live (base rs))) as [a|] eqn:Hh; [|cbn [fst]; auto].
+      destruct (step c (base rs) (Drop h)) as [s' r] eqn:Hs.
+      pose proof (step_inv c (base rs) (Drop h) H1) as HI'. rewrite Hs in HI'. cbn [fst] in HI'.
+      cbn [step] in Hs. rewrite Hh in Hs. inversion Hs; subst; clear Hs.
+      pose proof (lookup_In _ _ _ Hh) as Hin0. destruct (H2 _ _ Hin0) as (t0 & Ht0). rewrite Ht0.
+      constructor; cbn [fst base tupof trefs ntup frames uaf closure_free live]; auto.
+      * intros h' a' Hin. apply In_remove_key in Hin as [Hin Hne].
+        assert (a' <> a).
+        { intros ->. apply Hne. destruct H1 as [_ I2 _ _ _ _]. eapply snd_inj_of_NoDup; eauto. }
+        rewrite alookup_aremove_other by congruence. eauto.
+      * intros t Hpos. destruct (N.eqb_spec t t0) as [->|Hne].
+        -- pose proof (osum_aremove_lt a t0 (tupof rs) Ht0) as Hlt.
+           destruct (H3 t0) as (r & Hr & Hge); [lia|].
+           unfold tdec. rewrite Hr. exists (r - 1). split; [apply tlookup_set_same; lia|lia].
+        -- pose proof (osum_aremove_le a t (tupof rs)) as Hle.
+           rewrite tlookup_dec_other by auto.
+           destruct (H3 t) as (r & Hr & Hge); [lia|]. exists r. split; [auto|lia].
+      * intros a' t Hin. apply In_aremove in Hin. eauto.
+    + (* Call *)
+      destruct (step c (base rs) (Call h)) as [s' r] eqn:Hs.
+      pose proof (step_inv c (base rs) (Call h) H1) as HI'. rewrite Hs in HI'. cbn [fst] in HI'.
+      assert (Hna : forall a, r <> OAddr a).
+      { cbn [step] in Hs. destruct (lookup N.eqb h (live (base rs)));
+          [destruct (lookup addr_eqb a (udata (base rs)))|]; inversion Hs; discriminate. }
+      assert (Hl : live s' = live (base rs)) by (eapply step_nonaddr_live; eauto; discriminate).
+      destruct r as [a| | | |]; [exfalso; eapply Hna; eauto| | | |];
+        constructor; cbn [fst base tupof trefs ntup frames uaf]; auto; rewrite Hl; auto.
+  - (* RInvokeEnter *)
+    cbn [rstep]. unfold enter.
+    destruct (lookup N.eqb h (live (base rs))) as [a|] eqn:Hh; [|cbn [fst]; auto].
+    destruct (lookup addr_eqb a (tupof rs)) as [t|] eqn:Ht; [|cbn [fst]; auto].
+    destruct (lookup addr_eqb a (udata (base rs))) as [f|]; [|cbn [fst]; auto].
+    cbn [fst]. apply finish_inv with (dropped := false); auto.
+    + eapply H5. apply alookup_In; eauto.
+    + intros t' Hpos. destruct (N.eqb t t'); apply H3; lia.
+    + apply path_safe.
+    + lia.
+    + intros _. eapply osum_lookup; eauto.
+  - (* RInvokeExit *)
+    cbn [rstep]. unfold resume. destruct (frames rs) as [|fr fs] eqn:Hf; [cbn [fst]; auto|].
+    cbn [fst]. destruct (H4 fr (or_introl eq_refl)) as [Hown Hsafe].
+    apply finish_inv with (dropped := true); auto.
+    + intros fr' Hin. apply H4. right; auto.
+    + intros fr' Hin. apply H6. right; auto.
+    + apply H6. left; auto.
+    + lia.
+    + discriminate.
 Qed.
 
 Lemma rinv_init : RInv rinit.
-Proof. split; [apply inv_init|]. cbn. tauto. Qed.
+Proof. constructor; cbn; try tauto; try lia; auto. apply inv_init. Qed.
 
-Lemma rrun_inv c h : forall rs, RInv rs -> RInv (rrun c rs h).
+Lemma rrun_inv c h : forall rs, RInv rs -> RInv (rrun ev c rs h).
 Proof. induction h as [|o h IH]; cbn; intros; auto. apply IH. apply rstep_inv; auto. Qed.
 
-(* the info tuple of every live callback is alive, after any history of creations, failed creations,
-   drops and invocations along any path of general_invoke_callback — in particular after invocations
-   whose arguments could not be converted *)
-Theorem tuple_alive_while_live c rs h a :
-  rreachable c rs -> In (h, a) (live (base rs)) ->
-  exists r, lookup addr_eqb a (trefs rs) = Some r /\ 1 <= r.
-Proof. intros [hh ->] Hin. destruct (rrun_inv c hh rinit rinv_init) as [_ HT]; eauto. Qed.
+Lemma rreachable_inv c rs : rreachable ev c rs -> RInv rs.
+Proof. intros [hh ->]. apply rrun_inv. apply rinv_init. Qed.
 
-(* hence an invocation of a live callback — whatever path the previous invocations took — finds its
-   tuple and runs the function the callback was created with *)
-Theorem invoke_runs_own c rs h a k :
-  rreachable c rs -> In (h, a) (live (base rs)) ->
-  exists f, lookup N.eqb h (made (base rs)) = Some f /\ snd (rstep c rs (RInvoke h k)) = OFn f.
+(* THE CALLBACK THAT DROPS ITSELF WHILE RUNNING: whatever happens while an invocation is suspended in a
+   call-out — its own callback dropped, its closure address given to a new callback, nested invocations —
+   the tuple it works on is allocated, with a strictly positive count *)
+Theorem tuple_alive_during_call c rs fr :
+  rreachable ev c rs -> In fr (frames rs) ->
+  exists r, lookup N.eqb (f_tup fr) (trefs rs) = Some r /\ 1 <= r.
 Proof.
-  intros [hh ->] Hin. destruct (rrun_inv c hh rinit rinv_init) as [HI HT].
-  destruct (HT _ _ Hin) as (r & Hr & Hge).
-  destruct HI as [I1 I2 I3 I4 I5 I6]. destruct (I6 _ _ Hin) as (f & F1 & F2).
-  exists f. split; auto. cbn [rstep]. unfold invoke.
-  rewrite (In_lookup _ _ _ I5 Hin), Hr, F2. reflexivity.
+  intros HR Hin. destruct (rreachable_inv c rs HR) as [H1 H2 H3 H4 H5 H6 H7].
+  assert (Hm : f_own fr <= fsum (f_tup fr) (frames rs)) by (apply fsum_member; auto; intros x Hx; apply H4; auto).
+  destruct (H4 _ Hin) as [Ho _]. pose proof (osum_nonneg (f_tup fr) (tupof rs)).
+  destruct (H3 (f_tup fr)) as (r & Hr & Hge); [lia|]. exists r. split; [auto|lia].
 Qed.
+
+(* and no invocation ever touches a freed tuple, over all histories *)
+Theorem no_use_after_free c rs : rreachable ev c rs -> uaf rs = false.
+Proof. intros HR. destruct (rreachable_inv c rs HR); auto. Qed.
+
+(* the info tuple of every live callback is alive, after any history of creations, failed creations,
+   drops and (possibly still unfinished) invocations along any path of general_invoke_callback *)
+Theorem tuple_alive_while_live c rs h a :
+  rreachable ev c rs -> In (h, a) (live (base rs)) ->
+  exists t r, lookup addr_eqb a (tupof rs) = Some t /\ lookup N.eqb t (trefs rs) = Some r /\ 1 <= r.
+Proof.
+  intros HR Hin. destruct (rreachable_inv c rs HR) as [H1 H2 H3 H4 H5 H6 H7].
+  destruct (H2 _ _ Hin) as (t & Ht). pose proof (osum_lookup _ _ _ Ht).
+  assert (0 <= fsum t (frames rs)) by (apply fsum_nonneg; intros x Hx; apply H4; auto).
+  destruct (H3 t) as (r & Hr & Hge); [lia|]. exists t, r. repeat split; auto. lia.
+Qed.
+
+(* hence an invocation of a live callback — whatever the previous invocations did — finds its tuple and
+   runs the function the callback was created with *)
+Theorem invoke_runs_own c rs h a k :
+  rreachable ev c rs -> In (h, a) (live (base rs)) ->
+  exists f, lookup N.eqb h (made (base rs)) = Some f /\ snd (rstep ev c rs (RInvokeEnter h k)) = OFn f.
+Proof.
+  intros HR Hin. destruct (rreachable_inv c rs HR) as [H1 H2 H3 H4 H5 H6 H7].
+  destruct (H2 _ _ Hin) as (t & Ht).
+  destruct H1 as [I1 I2 I3 I4 I5 I6]. destruct (I6 _ _ Hin) as (f & F1 & F2).
+  exists f. split; auto. cbn [rstep]. unfold enter.
+  rewrite (In_lookup _ _ _ I5 Hin), Ht, F2. reflexivity.
+Qed.
+End LayerProofs.
+
+(* ---------- the regenerated general_invoke_callback *)
+Lemma paths_balanced : all_paths_balanced invoke_events = true.
+Proof. vm_compute. reflexivity. Qed.
+
+Lemma held_invoke : held_at_uses invoke_events = true.
+Proof. vm_compute. reflexivity. Qed.
